@@ -810,6 +810,11 @@ std::vector<double> Minimization::minimize(std::vector<double>& starting_point, 
 std::vector<double> Minimization::minimize(std::vector<double>& starting_point, std::vector<double>& deltas, std::function<double(std::vector<double>)> func)
 {
 	int ndim = starting_point.size();
+	if(deltas.size() != starting_point.size())
+	{
+		std::cerr << "Error in libphysica::Minimization::minimize(): Starting point and displacements are of differing dimensions (" << starting_point.size() << " and " << deltas.size() << ")." << std::endl;
+		std::exit(EXIT_FAILURE);
+	}
 	std::vector<std::vector<double>> pp(ndim + 1, std::vector<double>(ndim, 0.0));
 	for(int i = 0; i < ndim + 1; i++)
 	{
